@@ -13,7 +13,7 @@ func init() {
 	Specs["C20"] = &Spec{
 		ID: "C20",
 		Rule: "scenario = (list length n, success/error pattern); every interleaving of the real AsyncMapReduce's workers, reducer and caller is enumerated " +
-			"(unbounded with state caching; additionally preemption-bounded without caching as a cross-check); a scenario is non-trivial if it has >1 execution",
+			"(unbounded with state caching; additionally preemption-bounded without caching as a cross-check); plus long lists (n = 17, 33, 40) under the default schedule only, as size-threshold probes; a scenario is non-trivial if it has >1 execution",
 		Assumptions: []string{
 			"rewrite rules of vrewrite and channel/WaitGroup semantics of vrt (self-tests in setup)",
 			"state caching assumes data-race freedom of un-hooked memory; harness observations are made visible with vrt.Touch",
@@ -47,6 +47,20 @@ func init() {
 						Name:  fmt.Sprintf("n=%d errmask=%0*b PB<=%d uncached", n, n, mask, crossPB),
 						Atoms: []string{fmt.Sprintf("n%d", n)},
 						Opt:   explore.Options{Bound: crossPB, Cache: false, StartBranch: true},
+						H:     c20Harness(n, mask),
+					})
+				}
+			}
+			// size thresholds (e.g. a worker pool): long lists under the default schedule and one preemption
+			for _, n := range []int{17, 33, 40} {
+				for _, mask := range []int{0, 1 << 3, 1<<3 | 1<<19} {
+					if mask>>n != 0 {
+						continue
+					}
+					out = append(out, Scenario{
+						Name:  fmt.Sprintf("n=%d errors at %b default schedule only (size threshold probe)", n, mask),
+						Atoms: []string{"large-n"},
+						Opt:   explore.Options{Bound: 0, StartBranch: false},
 						H:     c20Harness(n, mask),
 					})
 				}
